@@ -151,9 +151,9 @@ def verify_functions(run, contracts, registry, concretes=None, tier='quick', bot
             run.undecided('%s.extraction' % c.funcname, 'E1/pyvc', 'outside the subset: ' + res.unsupported)
             continue
         for cf in res.covers_failed:
-            run.failed('%s.cover.%s' % (c.funcname, cf), 'E1/pyvc', 'unreachable',
-                       dict(reason='vacuity guard: no path reaches %s under the precondition' % cf),
-                       replayed=False, solver_output='cover unsat')
+            # vacuity guard: a contract part that no path reaches proves nothing -- the function is *undecided* (never a violation:
+            # the code may simply have been restructured, e.g. a loop turned into a comprehension)
+            run.undecided('%s.cover.%s' % (c.funcname, cf), 'E1/pyvc', 'vacuity guard: no path reaches %s under the precondition' % cf)
         if not res.obligations:
             run.undecided('%s.vacuous' % c.funcname, 'E1/pyvc', 'no obligations generated')
         for (name, status, solver, ms, detail, n) in res.obligations:
